@@ -129,7 +129,7 @@ fn main() {
             let w = World::new(seed, 3, 7);
             let mut rng = Rng::new(seed);
             let scheds = args.kv.get("schedules").map(|p| read_schedules(p)).unwrap_or_default();
-            storetx::run(&w, seed, &mut rng, scheds, args.num("n", 10) as usize, &dir, &mut trace, &mut sum);
+            storetx::run(&w, seed, &mut rng, scheds, args.num("n", 10) as usize, args.num("focus", 0) == 1, &dir, &mut trace, &mut sum);
         }
         "swarm" => {
             let w = World::new(seed, 3, 3);
